@@ -332,7 +332,10 @@ func (d *Dechunker) Next(b []byte) (n int, done *Msg, err error) {
 		d.st[csid] = s
 	}
 	if !s.used && f != 0 {
-		return 0, nil, fmt.Errorf("refrtmp: fresh chunk stream %d starts with type %d", csid, f)
+		// the one documented exception (property C02): librtmp starts chunk stream 2 with a type-1 ping
+		if !(csid == 2 && f == 1) {
+			return 0, nil, fmt.Errorf("refrtmp: fresh chunk stream %d starts with type %d", csid, f)
+		}
 	}
 	if s.partial && f == 0 {
 		return 0, nil, fmt.Errorf("refrtmp: type 0 inside an unfinished message on chunk stream %d", csid)
